@@ -83,7 +83,26 @@ var VCacheSize int
 
 // rule: 0 chained, 1 fast (aggregate QCs), 2 simple. self is never the leader.
 func VNewReplica(n int, rule int, leader hotstuff.ID, sym bool) *VReplica {
-	var opts []core.RuntimeOption
+	return VNewReplicaWith(n, rule, vhLeader{leader}, sym)
+}
+
+// vhLeadsOne: the replica under test (id 1) leads exactly view `mine`; replica 2 leads the rest.
+type vhLeadsOne struct{ mine hotstuff.View }
+
+func (l vhLeadsOne) GetLeader(v hotstuff.View) hotstuff.ID {
+	if v == l.mine {
+		return 1
+	}
+	return 2
+}
+
+type vhRotation interface {
+	GetLeader(hotstuff.View) hotstuff.ID
+}
+
+// VNewReplicaWith builds the stack around an arbitrary leader schedule.
+func VNewReplicaWith(n int, rule int, lr vhRotation, sym bool) *VReplica {
+	opts := []core.RuntimeOption{core.WithSyncVerification()} // votes are verified in the collecting call (single thread)
 	if rule == 1 {
 		opts = append(opts, core.WithAggregateQC())
 	}
@@ -105,7 +124,6 @@ func VNewReplica(n int, rule int, leader hotstuff.ID, sym bool) *VReplica {
 		r.Ruleset = rules.NewSimpleHotStuff(log, w.Cfg, w.Chain)
 	}
 	committer := consensus.NewCommitter(r.El, log, w.Chain, states, r.Ruleset)
-	lr := vhLeader{leader}
 	r.Voter = consensus.NewVoter(w.Cfg, lr, r.Ruleset, r.Comm, w.Auth, committer)
 	r.Cmds = clientpb.NewCommandCache(1)
 	proposer := consensus.NewProposer(r.El, w.Cfg, w.Chain, states, r.Ruleset, r.Comm, r.Voter, r.Cmds, committer)
